@@ -1,4 +1,5 @@
 import BoxoModel.C28.Lemmas
+import BoxoModel.C28.CodecLemmas
 /-!
 # C28 — Names and content paths parse and print canonically
 
@@ -192,16 +193,6 @@ theorem c28_join_segments {Cid : Type} (dec : Str → Option Cid) (s : Str) (p q
 
 /-! ### IPNS names -/
 
-/-- the laws of the external codecs used by `ipns.Name` (checked on the real go-libp2p / go-cid
-functions by the harness monitor on every run) -/
-structure NameCodec.Lawful (k : NameCodec) : Prop where
-  /-- `peer.Decode` of the base36 libp2p-key CID string of a multihash gives the multihash back -/
-  decode_encode : ∀ m, k.validMh m = true → k.peerDecode (k.cidB36 m) = some m
-  /-- the base36 string starts with the multibase prefix, never with `/ipns/` -/
-  encode_no_ns : ∀ m, nsPrefix.isPrefixOf (k.cidB36 m) = false
-  /-- a decoded peer ID is a well-formed multihash -/
-  decode_valid : ∀ s m, k.peerDecode s = some m → k.validMh m = true
-
 /-- **Names round-trip through every form.** For a name obtained from any string, printing it and
 parsing it again (with or without the `/ipns/` prefix), or going through its CID, its routing key or
 its peer ID, gives the same name. -/
@@ -241,6 +232,51 @@ theorem c28_name_routing_key (k : NameCodec) (d : Str) (n : Name) (h : nameFromR
       rw [hd]
       simp [hp', hv]
     · simp at h
+
+/-! ### the concrete codecs (no law is assumed any more)
+
+`concreteCodec extra` is built from byte-level models of go-varint, go-multihash `Cast`, go-cid `Cast` +
+`peer.FromCid`, base36 and base58btc (big-number codecs of `Lib.BaseX`) and `peer.Decode`; `extra` stands for
+all the multibases that are not modelled (any function). -/
+
+/-- The three codec laws hold for the concrete codecs, whatever the unmodelled multibases do. -/
+theorem c28_codec_lawful (extra : Str → Option Bytes) : (concreteCodec extra).Lawful :=
+  concreteCodec_lawful extra
+
+/-- **Names round-trip through every form — unconditionally** for the concrete codecs: a name parsed from
+any string (base58 multihash, or libp2p-key CID in base36 / base58btc / any other multibase) prints as
+`k…` base36, and parsing that string (with or without `/ipns/`), its CID, its routing key or its peer ID
+gives the same name. -/
+theorem c28_name_roundtrip_concrete (extra : Str → Option Bytes) (s : Str) (n : Name)
+    (h : nameFromString (concreteCodec extra) s = some n) :
+    (∃ str, n.toStr (concreteCodec extra) = some str ∧ nameFromString (concreteCodec extra) str = some n ∧
+        nameFromString (concreteCodec extra) (nsPrefix ++ str) = some n) ∧
+    (∃ c, n.cid (concreteCodec extra) = some c ∧ nameFromCid c = some n) ∧
+    nameFromRoutingKey (concreteCodec extra) n.routingKey = some n ∧
+    nameFromPeer n.peer = n :=
+  c28_name_laws _ (concreteCodec_lawful extra) s n h
+
+/-- base36 and base58btc: decoding inverts encoding on every non-empty byte string (leading zero bytes included) -/
+theorem c28_basex_roundtrip (bs : Bytes) (hne : bs ≠ []) :
+    BaseX.decode BaseX.b36 (BaseX.encode BaseX.b36 bs) = some bs ∧
+    BaseX.decode BaseX.b58 (BaseX.encode BaseX.b58 bs) = some bs :=
+  ⟨BaseX.decode_encode _ BaseX.b36_wf bs hne, BaseX.decode_encode _ BaseX.b58_wf bs hne⟩
+
+/-- the libp2p-key CID framing: `peer.Decode` of the base36 CID string of a well-formed multihash is that
+multihash, and everything `peer.Decode` returns is a well-formed multihash -/
+theorem c28_peer_decode (extra : Str → Option Bytes) :
+    (∀ m, validMhB m = true → peerDecodeB extra (cidB36B m) = some m) ∧
+    (∀ s m, peerDecodeB extra s = some m → validMhB m = true) :=
+  ⟨peerDecodeB_cidB36 extra, fun _ _ h => peerDecodeB_valid extra h⟩
+
+/-- identity (Ed25519 / secp256k1 keys: code 0x00, digest = the ≤ 42-byte serialized key) and sha2-256
+(RSA keys: code 0x12, 32-byte digest) peer IDs are well-formed multihashes, so the round trips apply to them -/
+theorem c28_peer_id_shapes (digest : Bytes) :
+    (digest.length < 128 → validMhB (0x00 :: digest.length.toUInt8 :: digest) = true) ∧
+    (digest.length = 32 → validMhB (0x12 :: 0x20 :: digest) = true) := by
+  constructor
+  · intro h; exact validMhB_small 0 digest.length (by decide) h digest rfl
+  · intro h; exact validMhB_small 0x12 32 (by decide) (by decide) digest h
 
 /-! ### Non-vacuity -/
 
